@@ -639,6 +639,15 @@ class Canon:
                 if isinstance(v, bool):
                     return K_TRUE if v else K_FALSE
                 return k_str(v) if isinstance(v, str) else k_num(v)
+        if self.model is not None and isinstance(e.ctx, ast.Load):
+            # a module-level constant table that the reference tree does not have is read through (like a new helper)
+            tab = self.model.new_constant_table(self.fi.module, e.id)
+            if tab is not None and not getattr(self, "_in_table", False):
+                self._in_table = True
+                try:
+                    return self.expr(tab)
+                finally:
+                    self._in_table = False
         return ("g", e.id)
 
     def _e_Attribute(self, e: ast.Attribute) -> S:
@@ -809,6 +818,15 @@ class Canon:
         if isinstance(fn, tuple) and fn[:1] == ("g",) and fn[1] in ("sum", "any", "all", "min", "max", "sorted", "set", "frozenset", "tuple", "list", "dict") \
                 and len(args) >= 1 and isinstance(args[0], tuple) and args[0][:2] == ("comp", "list"):
             args = [("comp", "gen") + tuple(args[0][2:])] + list(args[1:])
+        # operator.ge(a, b) == a >= b  (and the other comparison / arithmetic functions of the operator module)
+        if isinstance(fn, tuple) and fn[:2] == ("a", ("g", "operator")) and len(args) == 2 and not kwargs:
+            cmp_ops = {"lt": "Lt", "le": "LtE", "gt": "Gt", "ge": "GtE", "eq": "Eq", "ne": "NotEq"}
+            if fn[2] in cmp_ops:
+                return self.compare(cmp_ops[fn[2]], args[0], args[1])
+            ar = {"add": lambda a, b: (to_poly(a) + to_poly(b)).to_s(), "sub": lambda a, b: (to_poly(a) - to_poly(b)).to_s(),
+                  "mul": lambda a, b: (to_poly(a) * to_poly(b)).to_s(), "truediv": lambda a, b: (to_poly(a) * to_poly(("inv", b))).to_s()}
+            if fn[2] in ar:
+                return ar[fn[2]](args[0], args[1])
         # isinstance(x, (A, B)) == isinstance(x, A) or isinstance(x, B)
         if fn == ("g", "isinstance") and len(args) == 2 and not kwargs and isinstance(args[1], tuple) and args[1][:1] == ("tuple",) and args[1][1]:
             return mk_or([mk_call(fn, [args[0], t], []) for t in args[1][1]])
@@ -1423,6 +1441,10 @@ def _renorm_local(x: S) -> S:
     if t == "cmp" and len(x) == 4 and x[1] in ("is", "isnot") and K_NONE in (x[2], x[3]):
         from .peval import fold as _fold           # (T if c else None) is None  ==  not c
         return _fold(x)
+    if t == "c" and len(x) == 4 and isinstance(x[1], tuple) and x[1][:2] == ("a", ("g", "operator")) and len(x[2]) == 2 and not x[3]:
+        cmp_ops = {"lt": "Lt", "le": "LtE", "gt": "Gt", "ge": "GtE", "eq": "Eq", "ne": "NotEq"}
+        if x[1][2] in cmp_ops:
+            return Canon.compare(cmp_ops[x[1][2]], x[2][0], x[2][1])
     if t == "c" and len(x) == 4 and isinstance(x[1], tuple):
         fn, args, kwargs = x[1], x[2], x[3]
         if fn[:1] == ("g",) and fn[1] in _CONSUMERS and len(args) >= 1 and isinstance(args[0], tuple) and args[0][:2] == ("comp", "list"):
